@@ -15,6 +15,7 @@
 //!   csA/csB chunk sizes configured at endpoints A and B; loc 0: receiver moves to B, 1: sender moves to B
 //!   payload byte i = (seed + 37 i) mod 256, i < plen; a write of n takes the next n unaccepted bytes
 //!   ops   0 write n | 1 flush | 2 shutdown | 3 drop sender | 4 read n | 5 deliver | 6 cut connection
+//!         7 (kind 1 only) flush, then move the sender to the other endpoint and continue there
 //! Output per op: tag then data.  tag 0 = Ok (write: accepted count; read: count then the bytes;
 //!   others: 0), 1 = Err (io::ErrorKind class), 2 = pending at quiescence (future dropped),
 //!   3 = panic, 4 = half no longer exists.
@@ -162,8 +163,8 @@ async fn run_case(c: &Case) -> Option<Trace> {
         Connect::framed::<_, _, Item, Item, codec::Default>(cfg_a, net.a2b.sink(), net.b2a.stream()),
         Connect::framed::<_, _, Item, Item, codec::Default>(cfg_b, net.b2a.sink(), net.a2b.stream()),
     );
-    let (conn_a, mut tx_a, _rx_a): (_, base::Sender<Item>, base::Receiver<Item>) = a.ok()?;
-    let (conn_b, _tx_b, mut rx_b): (_, base::Sender<Item>, base::Receiver<Item>) = b.ok()?;
+    let (conn_a, mut tx_a, mut rx_a): (_, base::Sender<Item>, base::Receiver<Item>) = a.ok()?;
+    let (conn_b, mut tx_b, mut rx_b): (_, base::Sender<Item>, base::Receiver<Item>) = b.ok()?;
     let ja = tokio::spawn(conn_a);
     let jb = tokio::spawn(conn_b);
 
@@ -191,7 +192,10 @@ async fn run_case(c: &Case) -> Option<Trace> {
     let rx: Slot<io::Receiver> = Arc::new(tokio::sync::Mutex::new(Some(rx)));
     let mut off = 0usize;
     let mut results = Vec::new();
+    // where the sender currently lives
+    let mut at_a = c.loc == 0;
     for &(op, arg) in &c.ops {
+        if std::env::var_os("VH_DEBUG").is_some() { eprintln!("op {op} {arg}"); }
         let res = match op {
             0 => {
                 let end = (off + arg).min(c.payload.len());
@@ -247,6 +251,50 @@ async fn run_case(c: &Case) -> Option<Trace> {
                 net.b2a.fail(Fault::StreamErr);
                 barrier().await;
                 Res::Ok(vec![], 0)
+            }
+            7 if c.kind != 0 => {
+                // flush, then move the (already used) sender to the other endpoint and go on there
+                let txc = tx.clone();
+                let r = big_step(async move {
+                    let mut g = txc.lock().await;
+                    let h = g.as_mut()?;
+                    Some(h.flush().await)
+                })
+                .await;
+                if std::env::var_os("VH_DEBUG").is_some() { eprintln!("op7 flush done at_a={at_a}"); }
+                match r {
+                    Ok(()) => {
+                      let taken = { tx.lock().await.take() };
+                      match taken {
+                        Some(s) => {
+                            let moved = tokio::time::timeout(std::time::Duration::from_secs(5), async {
+                                if at_a {
+                                    let (x, y) = tokio::join!(tx_a.send(Item::Tx(s)), rx_b.recv());
+                                    x.ok()?;
+                                    y.ok()?
+                                } else {
+                                    let (x, y) = tokio::join!(tx_b.send(Item::Tx(s)), rx_a.recv());
+                                    x.ok()?;
+                                    y.ok()?
+                                }
+                            })
+                            .await;
+                            if std::env::var_os("VH_DEBUG").is_some() { eprintln!("op7 moved {:?}", moved.as_ref().map(|m| m.is_some())); }
+                            match moved {
+                                Ok(Some(Item::Tx(s2))) => {
+                                    *tx.lock().await = Some(s2);
+                                    at_a = !at_a;
+                                    barrier().await;
+                                    Res::Ok(vec![], 0)
+                                }
+                                _ => Res::Err(9),
+                            }
+                        }
+                        None => Res::Gone,
+                      }
+                    }
+                    Err(e) => e,
+                }
             }
             _ => return None,
         };
@@ -334,7 +382,7 @@ fn oracle(c: &Case, t: &Trace) -> String {
                     }
                 }
             }
-            1 => match r {
+            1 | 7 => match r {
                 Res::Ok(..) => flushed = true,
                 Res::Err(_) | Res::Panic => sender_failed = true,
                 _ => {}
@@ -569,6 +617,7 @@ pub fn gen(r: &mut Rng, i: usize) -> Vec<Vec<u128>> {
     let target = if sized { fixed.min(plen) } else { plen };
     let mut planned = 0u64;
     let mut steps = 0;
+    let mut moves = 0;
     let drop_at = if variant == 2 { r.range(0, 12) } else { u64::MAX };
     let cut_at = if variant == 4 { r.range(0, 12) } else { u64::MAX };
     while steps < 60 {
@@ -579,6 +628,11 @@ pub fn gen(r: &mut Rng, i: usize) -> Vec<Vec<u128>> {
             ops.push((6, 0));
         }
         steps += 1;
+        // remote stream: the sender, already used, moves on to the other endpoint
+        if remote && moves < 2 && steps > 1 && r.chance(1, 8) {
+            ops.push((7, 0));
+            moves += 1;
+        }
         match r.below(12) {
             0..=4 => {
                 let n = around(r, cs).min(300);
